@@ -78,10 +78,14 @@ fn err_code(e: BoardBuilderError) -> u8 {
 // O-C09.build: build() succeeds exactly on the states that denote an accepted position; the board
 // returned represents that position with derived fields equal to their definitions and the hash
 // accounted for; when exactly one aspect is wrong the error names it
-hash_proof! {
-    #[kani::unwind(66)]
-    fn c09_build() {
+/// case split of the build contract (the cases together cover every builder state)
+/// case 0..3: (side to move, EP square present) = (w, no), (w, yes), (b, no), (b, yes); 4 = no split
+fn build_contract(case: u8) {
         let st = any_builder();
+        if case < 4 {
+            kani::assume(st.side_to_move as u8 == case >> 1);
+            kani::assume(st.en_passant.is_some() == (case & 1 == 1));
+        }
         let p = pos_of_builder(&st);
         cut_on();
         let r = st.build();
@@ -104,8 +108,12 @@ hash_proof! {
             }
         }
         kani::cover!(all);
-    }
 }
+hash_proof! { #[kani::unwind(66)] fn c09_build() { build_contract(4); } }
+hash_proof! { #[kani::unwind(66)] fn c09_build_w_noep() { build_contract(0); } }
+hash_proof! { #[kani::unwind(66)] fn c09_build_w_ep() { build_contract(1); } }
+hash_proof! { #[kani::unwind(66)] fn c09_build_b_noep() { build_contract(2); } }
+hash_proof! { #[kani::unwind(66)] fn c09_build_b_ep() { build_contract(3); } }
 
 // from_board: `for square in pieces { *this.square_mut(square) = Some((piece, color)); }` nested in the
 // colour / piece loops.  The invariant is stated for one universally quantified square T.
